@@ -47,6 +47,7 @@ _SHAPE_MS = MethodSet([
     dict(pos=[("name", ("K", 1), False)]),                                     # h1(name: K1): another name at the first position
     dict(pos=[("x", ("K", 0), False), ("y", ("obj",), True)]),                 # h2(x: K0, y=default): an optional positional
     dict(pos=[("x", ("obj",), False)], kw=[("k", ("obj",), True)]),            # h3(x: object, *, k=default): a keyword-only parameter
+    dict(pos=[("x", ("K", 1), False), ("y", ("obj",), False)]),                # h4(x: K1, y): two REQUIRED positionals
 ])
 
 
@@ -263,13 +264,13 @@ def gen_shapes(tier, seed):
         for p in mt_pools:
             for h in Hm:
                 shapes.append(dict(n=n, api="mtm", pool=p, ops=h))
-    for h in (H4 if tier == "quick" else H4 + H5):
+    for h in (histories(5, 4) if tier == "quick" else histories(5, 4) + histories(5, 5)):
         if any(op == "unreg" for op, _ in h):
             shapes.append(dict(n=n, api="ovld-shapes", pool=[], ops=h))
     if tier == "quick":
         keep = [sh for sh in shapes if sh["api"] == "ovld-shapes"]
         rng.shuffle(keep)
-        shapes = [sh for sh in shapes if sh["api"] != "ovld-shapes"] + keep[:150]
+        shapes = [sh for sh in shapes if sh["api"] != "ovld-shapes"] + keep[:220]
     for sh in shapes:
         sh["probes"] = [rng.randrange(4) for _ in sh["ops"]]
     return shapes, total, True
@@ -294,8 +295,8 @@ def main(tier, seed):
         PID, tier, seed, t0, results,
         bounds=dict(classes=3, pool="4 candidate methods (one duplicating another's signature and priority)", positions=1,
                     history_length="4-5 register/unregister operations (Ovld); 3-4 registrations (MultiTypeMap)",
-                    call_shapes="a family whose four methods shape the entry point differently (another positional name, an optional positional, a keyword-only "
-                                "parameter): after every operation seven call shapes (positional / by keyword) are compared with a fresh build",
+                    call_shapes="a family whose five methods shape the entry point differently (another positional name, an optional positional, a keyword-only "
+                                "parameter, two required positionals): after every operation seven call shapes (positional / by keyword) are compared with a fresh build",
                     linked="a family in which the operations are applied to a parent that is never called itself and the probes go to a linkback copy of it",
                     probes="after each operation: one of K0 / K1 / object() / none (enumerated with the history, sampled); after the last: all three",
                     bodies="return | call_next(x) | recurse(other instance) | recurse(a class) next to a late type[K] method", priorities="unbounded integers (symbolic)",
